@@ -27,6 +27,7 @@ fn main() {
         eprintln!("watchdog: time budget of {budget}s exhausted — inconclusive");
         std::process::exit(2);
     });
+    vcore::set_quick_scale(8);
     match id.as_str() {
         "C33" => opcheck::c33(&mut ctx),
         _ => {
